@@ -233,6 +233,9 @@ class Array(Base):
             return 1.0 * arg.unit
         if hasattr(arg, "units"):
             return 1.0 * arg.units
+        if isinstance(arg, np.ndarray) and arg.size == 1:
+            # A one-element array (e.g. an exponent) must enter the unit as a number
+            return arg.item()
         return arg
 
     def _extract_units(self, args):
